@@ -10,7 +10,7 @@ for name in $(ls seeded | grep -v matrix); do
   (cd $wt && git apply /verif/seeded/$name/patch.diff) || { echo "$name: patch does not apply"; continue; }
   for s in "$@"; do
     (HPL_REPO_DIR=$wt VERIF_SEED=$s VERIF_NO_REGRESSIONS=1 /venv/bin/python -m hplverif.run $id > /tmp/os_${name}_$s.log 2>&1; echo -e "$name\t$id\t$s\t$?" >> /tmp/own_seeds.tsv) &
-    while [ $(jobs -r | wc -l) -ge 10 ]; do sleep 0.5; done
+    while [ $(jobs -r | wc -l) -ge 6 ]; do sleep 0.5; done
   done
 done
 wait
